@@ -1,6 +1,8 @@
 package main
 
 import (
+	"fmt"
+	"os"
 	"go/ast"
 	"go/token"
 	"go/types"
@@ -194,16 +196,21 @@ func c06r1(p *Program, r *Report) {
 	if fi == nil {
 		return
 	}
-	g := p.GraphOf(fi)
+	g := p.GraphOfInl(fi)
 	ef := g.Events(connEvents(p, g))
 	nreg := 0
-	for _, e := range g.Exits() {
+	for _, e := range g.ExitsInl() {
 		if e.Kind == ExitPanic {
 			continue
 		}
 		s, ok := ef.ExitState(e)
 		if !ok || !s.Must["registered"] {
 			continue
+		}
+		if rs, isR := e.Node.(*ast.ReturnStmt); isR && len(rs.Results) == 1 {
+			if c, isC := ast.Unparen(rs.Results[0]).(*ast.CallExpr); isC && g.inl.calls[c] {
+				continue // `return helper(...)`: the helper's own returns are looked at
+			}
 		}
 		nreg++
 		name := "(*Conn).exec exit " + exitDesc(p, e)
@@ -220,20 +227,22 @@ func c06r1(p *Program, r *Report) {
 	// every registered call and waits on each call's timeout channel: exec's own call must already be marked
 	// finished (response received or close(call.timeout)), or closeWithError blocks on the very request that runs it
 	info := g.Info
-	for _, c := range callsIn(fi.Decl.Body) {
-		name := calleeName(info, c)
-		if name != "(*Conn).handleTimeout" && name != "(*Conn).closeWithError" {
-			continue
+	for _, u := range g.Units() {
+		for _, c := range callsIn(u.Decl.Body) {
+			name := calleeName(info, c)
+			if name != "(*Conn).handleTimeout" && name != "(*Conn).closeWithError" {
+				continue
+			}
+			if _, inLit := p.enclosing(c, u.Decl, func(n ast.Node) bool { _, is := n.(*ast.FuncLit); return is }).(*ast.FuncLit); inLit {
+				continue
+			}
+			st, ok := ef.Sol.Before(p.stmtOf(c, u))
+			if !ok || !st.Must["registered"] {
+				continue
+			}
+			r.Check(st.Must["done"], c, "(*Conn).exec calls "+name+" only after its own call stopped listening", "close(call.timeout) or a received response precedes it on every path",
+				name+" can close the connection while exec's own call is still registered with its timeout channel open and nobody reading call.resp: closeWithError blocks forever delivering the error to this call, the request never returns and the connection is never torn down")
 		}
-		if _, inLit := p.enclosing(c, fi.Decl, func(n ast.Node) bool { _, is := n.(*ast.FuncLit); return is }).(*ast.FuncLit); inLit {
-			continue
-		}
-		st, ok := ef.Sol.Before(p.stmtOf(c, fi))
-		if !ok || !st.Must["registered"] {
-			continue
-		}
-		r.Check(st.Must["done"], c, "(*Conn).exec calls "+name+" only after its own call stopped listening", "close(call.timeout) or a received response precedes it on every path",
-			name+" can close the connection while exec's own call is still registered with its timeout channel open and nobody reading call.resp: closeWithError blocks forever delivering the error to this call, the request never returns and the connection is never torn down")
 	}
 }
 
@@ -344,33 +353,37 @@ func c06r3(p *Program, r *Report) {
 	}
 	info := fi.Pkg.TypesInfo
 	found := false
-	ast.Inspect(fi.Decl.Body, func(n ast.Node) bool {
-		sel, ok := n.(*ast.SelectStmt)
-		if !ok {
-			return true
-		}
-		srcs := map[string]bool{}
-		for _, cc := range commClauses(sel) {
-			if ch := recvChan(cc.Comm); ch != nil {
-				s := chanSource(p, info, fi.Decl, ch)
-				if len(s) > 4 && s[:4] == "ctx:" {
-					s = "callerctx"
-				}
-				srcs[s] = true
+	// exec and the unexported functions it was split into
+	for _, u := range p.GraphOfInl(fi).Units() {
+		u := u
+		ast.Inspect(u.Decl.Body, func(n ast.Node) bool {
+			sel, ok := n.(*ast.SelectStmt)
+			if !ok {
+				return true
 			}
-		}
-		if !srcs["resp"] {
+			srcs := map[string]bool{}
+			for _, cc := range commClauses(sel) {
+				if ch := recvChan(cc.Comm); ch != nil {
+					s := chanSource(p, info, u.Decl, ch)
+					if len(s) > 4 && s[:4] == "ctx:" {
+						s = "callerctx"
+					}
+					srcs[s] = true
+				}
+			}
+			if !srcs["resp"] {
+				return true
+			}
+			found = true
+			for _, need := range []struct{ k, what string }{
+				{"resp", "the response"}, {"timer", "the request timer (chan time.Time)"}, {"callerctx", "the caller's context"}, {"connctx", "the connection context c.ctx"}} {
+				r.Check(srcs[need.k], sel, "(*Conn).exec wait-select case "+need.k, "waits on "+need.what,
+					"the select that waits for the response has no case on "+need.what+": the caller can wait forever")
+			}
+			r.Check(!hasDefault(sel), sel, "(*Conn).exec wait-select blocking", "no default clause", "wait select has a default clause")
 			return true
-		}
-		found = true
-		for _, need := range []struct{ k, what string }{
-			{"resp", "the response"}, {"timer", "the request timer (chan time.Time)"}, {"callerctx", "the caller's context"}, {"connctx", "the connection context c.ctx"}} {
-			r.Check(srcs[need.k], sel, "(*Conn).exec wait-select case "+need.k, "waits on "+need.what,
-				"the select that waits for the response has no case on "+need.what+": the caller can wait forever")
-		}
-		r.Check(!hasDefault(sel), sel, "(*Conn).exec wait-select blocking", "no default clause", "wait select has a default clause")
-		return true
-	})
+		})
+	}
 	if !found {
 		r.Unresolved("no select receiving from callReq.resp in exec")
 	}
@@ -480,15 +493,26 @@ func c06r5(p *Program, r *Report) {
 	if fi == nil {
 		return
 	}
-	g := p.GraphOf(fi)
+	g := p.GraphOfInl(fi)
 	info := g.Info
 	ef := g.Events(connEvents(p, g))
 	locks := g.Lockset()
 	nresp := 0
-	for _, e := range g.Exits() {
+	for _, e := range g.ExitsInl() {
 		s, ok := ef.ExitState(e)
 		if !ok || e.Kind == ExitPanic {
 			continue
+		}
+		if rs, isR := e.Node.(*ast.ReturnStmt); isR && len(rs.Results) == 1 {
+			if c, isC := ast.Unparen(rs.Results[0]).(*ast.CallExpr); isC && g.inl.calls[c] {
+				continue // `return helper(...)`: the helper's own returns are looked at
+			}
+		}
+		if os.Getenv("DBGC06") != "" {
+			fmt.Println("DBG exit", p.Pos(e.Node), len(e.Block.Nodes), s.Must.sorted())
+			for _, nn := range e.Block.Nodes {
+				fmt.Printf("   node %T %s\n", nn, p.Pos(nn))
+			}
 		}
 		if s.Must["recvResp"] {
 			nresp++
@@ -639,28 +663,28 @@ func c06r7(p *Program, r *Report) {
 		return
 	}
 	base := connEvents(p, g)
+	// "lookup": the statement that takes the call out of c.calls has been executed
 	ef := g.Events(func(st Step) []string {
 		evs := base(st)
-		if st.Kind == StCond && st.Val {
-			found := false
-			ast.Inspect(st.Node, func(n ast.Node) bool {
-				if b, ok := n.(*ast.BinaryExpr); ok && b.Op == token.EQL {
-					if isIdentOf(info, b.X, callObj) && isNil(info, b.Y) || isIdentOf(info, b.Y, callObj) && isNil(info, b.X) {
-						found = true
-					}
+		if st.Kind == StNode {
+			for _, l := range assignedLHS(st.Node) {
+				if isIdentOf(info, l, callObj) {
+					evs = append(evs, "lookup")
 				}
-				return true
-			})
-			if found {
-				evs = append(evs, "noHandler")
 			}
 		}
 		return evs
 	})
+	facts := g.GuardFacts()
 	n := 0
 	for _, e := range g.Exits() {
 		s, ok := ef.ExitState(e)
-		if !ok || !s.Must["noHandler"] || e.Kind == ExitPanic {
+		if !ok || !s.Must["lookup"] || e.Kind == ExitPanic || e.Node == nil {
+			continue
+		}
+		// an exit where the call is not known to be non-nil is an exit for a frame nobody waits for
+		f, _ := facts.Before(e.Node)
+		if v, known := f.m[callObj.Name()+" == nil"]; known && !v {
 			continue
 		}
 		n++
